@@ -31,6 +31,10 @@ pub struct SetupV {
     /// transaction is confirmed right after the set-up
     #[serde(default)]
     pub onchain: bool,
+    /// the channel is set up by the protocol message SetupChannel through the channel handler
+    /// (not with a wallet upfront script: the message carries no path for it)
+    #[serde(default)]
+    pub wire: bool,
 }
 
 impl SetupV {
@@ -45,6 +49,7 @@ impl SetupV {
             push_msat: if outbound { 0 } else { 1_000_000_000 },
             onchain: false,
             upfront: 0,
+            wire: false,
         }
     }
 }
@@ -123,7 +128,8 @@ pub fn open(cfg: WorldCfg, v: &SetupV) -> Result<Chan, String> {
     let node = w.node.clone();
     let s2 = setup.clone();
     let path = if v.upfront == 1 { wallet_path(7) } else { lightning_signer::bitcoin::bip32::DerivationPath::master() };
-    match call(move || node.setup_channel(id, None, s2, &path).map(|_| ()).map_err(|e| status_kind(&e))) {
+    let so = if v.wire && v.upfront != 1 { w.setup_channel_wire(DBID, &setup) } else { call(move || node.setup_channel(id, None, s2, &path).map(|_| ()).map_err(|e| status_kind(&e))) };
+    match so {
         Outcome::Ok(_) => {}
         o => return Err(format!("setup_channel: {}", o.tag())),
     }
